@@ -2,6 +2,7 @@
 from rules import grd as G
 from rules import fmt as F
 from rules import tbl_write_integer as I
+from rules import extra as X
 from rules.core import (guarded, callee_name, last_seg, path_conditions, op_expr, rvalue_expr, show, strip_casts, expr_calls,
                         expr_consts, fold, AnchorMissing)
 
@@ -210,4 +211,5 @@ def run(col, configs, tier):
         guarded(col, rule_dragonbox_arg, facts)
         guarded(col, rule_defaults, facts)
         guarded(col, I.rule_sizes, facts)
+        guarded(col, X.rule_buffer_allowance, facts)
         guarded(col, F.rule_entry_validation, facts)
